@@ -144,3 +144,206 @@ def fl(v):
     if isinstance(v, (list, tuple)):
         return v[0] / v[1]
     return float(v)
+
+
+# ------------------------------------------------------------------------------------------------------------
+# abstract document -> blueprint YAML text
+# ------------------------------------------------------------------------------------------------------------
+FORMATS = {"mf": "mass fractions", "nd": "number densities", "nf": "number fractions"}
+LENGTH_UNIT = 100  # abstract lengths count 0.01 cm
+
+
+def _dim_text(name, v):
+    if v["k"] == "link":
+        return "%s.%s" % (v["c"], v["d"])
+    if name == "mult":
+        return str(v["v"])
+    return dec(v["v"], LENGTH_UNIT)
+
+
+def _obj(x):
+    """TLC prints a function with an empty domain as []"""
+    return {} if isinstance(x, list) and not x else x
+
+
+def render(doc):
+    """The YAML text of an abstract document.  Purely syntactic; duplicate names become duplicate keys, on purpose."""
+    y = []
+    if doc["iso"]:
+        y.append("custom isotopics:")
+        for iso in doc["iso"]:
+            y.append("    %s:" % iso["name"])
+            y.append("        input format: %s" % FORMATS[iso["fmt"]])
+            for nuc, v in iso["vec"]:
+                y.append("        %s: %s" % (nuc, num(v)))
+            if iso["dens"][0] != 0:
+                y.append("        density: %s" % num(iso["dens"]))
+    y.append("blocks:")
+    for k, b in enumerate(doc["blocks"], 1):
+        y.append("    %s: &b%d" % (" ".join(b["name"]), k))
+        if b["grid"]:
+            y.append("        grid name: %s" % b["grid"])
+        for c in b["comps"]:
+            y.append("        %s:" % c["name"])
+            y.append("            shape: %s" % c["shape"])
+            y.append("            material: %s" % c["mat"])
+            if c["iso"]:
+                y.append("            isotopics: %s" % c["iso"])
+            y.append("            Tinput: %s.0" % c["ti"])
+            y.append("            Thot: %s.0" % c["th"])
+            for d, v in sorted(_obj(c["dims"]).items()):
+                if v["k"] != "none":
+                    y.append("            %s: %s" % (d, _dim_text(d, v)))
+            if c["lat"]:
+                y.append("            latticeIDs: [%s]" % ", ".join('"%s"' % i for i in c["lat"]))
+    y.append("assemblies:")
+    for a in doc["asms"]:
+        y.append("    %s:" % " ".join(a["name"]))
+        y.append("        specifier: %s" % a["spec"])
+        y.append("        blocks: [%s]" % ", ".join("*b%d" % k for k in a["blocks"]))
+        y.append("        height: [%s]" % ", ".join("%d.0" % h for h in a["height"]))
+        y.append("        axial mesh points: [%s]" % ", ".join(str(m) for m in a["mesh"]))
+        y.append("        xs types: [%s]" % ", ".join(a["xs"]))
+        if a["mods"]:
+            y.append("        material modifications:")
+            vals = lambda m: "[%s]" % ", ".join(num(v) if v else "''" for v in m["vals"])  # noqa: E731
+            for m in a["mods"]:
+                if m["scope"] == "":
+                    y.append("            %s: %s" % (m["key"], vals(m)))
+            scopes = []
+            for m in a["mods"]:
+                if m["scope"] and m["scope"] not in scopes:
+                    scopes.append(m["scope"])
+            if scopes:
+                y.append("            by component:")
+                for s in scopes:
+                    y.append("                %s:" % s)
+                    for m in a["mods"]:
+                        if m["scope"] == s:
+                            y.append("                    %s: %s" % (m["key"], vals(m)))
+    y.append("systems:")
+    y.append("    core:")
+    y.append("        grid name: %s" % doc["core"])
+    y.append("        origin: {x: 0.0, y: 0.0, z: 0.0}")
+    y.append("grids:")
+    for g in doc["grids"]:
+        if g["mode"] == "map":
+            t = grid_yaml(g["name"], g["geom"], g["dom"], lines=g["text"])
+        else:
+            t = grid_yaml(g["name"], g["geom"], g["dom"], cells=[[i, j, '"%s"' % v] for i, j, v in g["cells"]])
+        y += ["    " + ln for ln in t.splitlines()]
+    return "\n".join(y) + "\n"
+
+
+# ------------------------------------------------------------------------------------------------------------
+# text -> real objects
+# ------------------------------------------------------------------------------------------------------------
+_CS = None
+
+
+def default_settings():
+    global _CS
+    armi_ready()
+    if _CS is None:
+        from armi import settings
+
+        _CS = settings.Settings()
+    return _CS
+
+
+def load_blueprints(text):
+    armi_ready()
+    from armi.reactor.blueprints import Blueprints
+
+    return Blueprints.load(io.StringIO(text))
+
+
+def build_reactor(text, cs=None):
+    from armi.reactor import reactors
+
+    bp = load_blueprints(text)
+    return reactors.factory(cs or default_settings(), bp)
+
+
+# ------------------------------------------------------------------------------------------------------------
+# real objects -> observation
+# ------------------------------------------------------------------------------------------------------------
+def flag_names(obj):
+    from armi.reactor.flags import Flags
+
+    return sorted(Flags.toString(obj.p.flags).split())
+
+
+def project_composition(c):
+    """weight-free observables of a component's composition (unit conversions only)."""
+    from armi.nucDirectory import nuclideBases
+    from armi.utils import units
+
+    K = units.MOLES_PER_CC_TO_ATOMS_PER_BARN_CM
+    nd = {n: float(v) for n, v in c.getNumberDensities().items() if v > 0.0}
+    md = {n: v * nuclideBases.byName[n].weight / K for n, v in nd.items()}
+    rho = sum(md.values())
+    ntot = sum(nd.values())
+    out = {"nd": nd, "md": md, "rho": rho,
+           "nf": {n: v / ntot for n, v in nd.items()} if ntot else {},
+           "mf": {n: v / rho for n, v in md.items()} if rho else {}}
+    u5, u8 = md.get("U235", 0.0), md.get("U238", 0.0)
+    if u5 + u8 > 0:
+        out["enr"] = u5 / (u5 + u8)
+    if rho:
+        out["zr"] = sum(v for n, v in md.items() if n.startswith("ZR")) / rho
+    return out
+
+
+def project_component(c):
+    from armi.reactor import grids
+    from armi.reactor.components.component import _DimensionLink
+
+    dims, links = {}, []
+    for d in c.DIMENSION_NAMES:
+        raw = c.p[d]
+        if isinstance(raw, _DimensionLink):
+            links.append([d, raw.getLinkedComponent().name, raw[1]])
+        if d == "mult" or d == "modArea":
+            continue
+        v = c.getDimension(d, cold=True)
+        if v is not None:
+            dims[d] = float(v) * LENGTH_UNIT
+    loc = c.spatialLocator
+    cells = sorted([int(x.i), int(x.j)] for x in loc) if isinstance(loc, grids.MultiIndexLocation) else []
+    out = {"name": c.name, "shape": type(c).__name__, "mat": c.material.name, "ti": float(c.inputTemperatureInC),
+           "th": float(c.temperatureInC), "dims": dims, "links": sorted(links), "cells": cells, "comp": project_composition(c)}
+    if "mult" in c.DIMENSION_NAMES:
+        m = c.getDimension("mult")
+        out["mult"] = None if m is None else float(m)
+    return out
+
+
+def project_block(b):
+    return {"type": b.getType(), "flags": flag_names(b), "height": float(b.getHeight()), "zbot": float(b.p.zbottom),
+            "ztop": float(b.p.ztop), "xs": b.p.xsType, "axMesh": int(b.p.axMesh), "k": int(b.spatialLocator.k),
+            "comps": {c.name: project_component(c) for c in b}, "ncomps": len(b)}
+
+
+def project_assembly(a):
+    return {"type": a.getType(), "flags": flag_names(a), "blocks": [project_block(b) for b in a],
+            "cell": [int(a.spatialLocator.i), int(a.spatialLocator.j)]}
+
+
+def project_reactor(r):
+    core = r.core
+    asm = {}
+    for a in core:
+        asm.setdefault("%d,%d" % (int(a.spatialLocator.i), int(a.spatialLocator.j)), []).append(project_assembly(a))
+    book = {
+        "children": len(core),
+        "byName": len(core.assembliesByName),
+        "byLocator": sum(1 for a in core if core.childrenByLocator.get(a.spatialLocator) is a),
+        "blocksByName": len(core.blocksByName),
+        "nblocks": sum(len(a) for a in core),
+        "parents": all(a.parent is core for a in core) and core.parent is r,
+        "namesUnique": len({a.getName() for a in core}) == len(core),
+    }
+    return {"asm": asm, "book": book, "mesh": [float(z) for z in core.p.referenceBlockAxialMesh],
+            "geom": str(core.spatialGrid.geomType) if hasattr(core.spatialGrid, "geomType") else "",
+            "symmetry": str(core.spatialGrid.symmetry)}
